@@ -262,8 +262,10 @@ class Reg(object):
 # reverse sweep through them is wrong or raises on a *fresh* graph, which is
 # C03's subject; each has a single-purpose probe family instead.  Remove an
 # entry when the class has been repaired in the repository.
-NON_T = set(['setitem_bcast', 'dot_matvec', 'outer', 'sum_axis0', 'reshape_noncontig', 'pow_negint', 'eigh_vectors',
-             'lu', 'svd', 'qr_full', 'fft'])
+NON_T = set(['eigh_vectors', 'lu', 'svd', 'qr_full', 'fft'])
+# Classes repaired in the repository (see known_findings.json, "fixed" entries); they are
+# part of T again and the ordinary families generate them: setitem_bcast, dot_matvec,
+# outer, sum_axis0, reshape_noncontig, pow_negint.
 
 FAMILIES = ('poly', 'smooth', 'buffer', 'linalg', 'kwargs', 'nopb', 'tryop')
 PROBES = ('dot_matvec', 'outer_distinct', 'reshape_noncontig', 'sum_axis0', 'pow_negint', 'setitem_bcast')
@@ -457,10 +459,13 @@ class Gen(object):
             sh = ()
             mag = ra.mag * n
         else:
-            axis = self.rng.choice([None, 1, -1])
+            axis = self.rng.choice([None, 1, -1] + ([] if 'sum_axis0' in NON_T else [0, -2]))
             if axis is None:
                 sh = ()
                 mag = ra.mag * n
+            elif axis in (0, -2):
+                sh = (ra.sh[1],)
+                mag = ra.mag * ra.sh[0]
             else:
                 sh = (ra.sh[0],)
                 mag = ra.mag * ra.sh[1]
@@ -516,6 +521,28 @@ class Gen(object):
                 return False
             self.emit('dot', [a, b], (ra.sh[0], rb.sh[1]), mag, t=True, p=True)
             return True
+        if 'dot_matvec' not in NON_T and rng.random() < 0.6:
+            # matrix . vector, vector . matrix, matrix . constant vector, constant vector . matrix
+            w = rng.choice(['Mv', 'vM', 'Mc', 'cM'])
+            if w == 'Mv':
+                v = self.pick_reg(lambda q: q.sh == (ra.sh[1],))
+                if v is not None and ra.mag * self.regs[v].mag * ra.sh[1] <= MAG_CAP:
+                    self.emit('dot', [a, v], (ra.sh[0],), ra.mag * self.regs[v].mag * ra.sh[1], t=True, p=True)
+                    return True
+            elif w == 'vM':
+                v = self.pick_reg(lambda q: q.sh == (ra.sh[0],))
+                if v is not None and ra.mag * self.regs[v].mag * ra.sh[0] <= MAG_CAP:
+                    self.emit('dot', [v, a], (ra.sh[1],), ra.mag * self.regs[v].mag * ra.sh[0], t=True, p=True)
+                    return True
+            elif ra.mag * 2.0 * max(ra.sh) <= MAG_CAP:
+                if w == 'Mc':
+                    self.emit('dot', [a, const_array(rng, (ra.sh[1],))], (ra.sh[0],), ra.mag * 2.0 * ra.sh[1],
+                              t=True, p=True)
+                else:
+                    self.emit('dot', [const_array(rng, (ra.sh[0],)), a], (ra.sh[1],), ra.mag * 2.0 * ra.sh[0],
+                              t=True, p=True)
+                return True
+            return False
         k = rng.randint(1, 3)
         mag = ra.mag * 2.0 * max(ra.sh)
         if mag > MAG_CAP:
@@ -531,14 +558,19 @@ class Gen(object):
         if a is None:
             return False
         ra = self.regs[a]
-        mag = ra.mag * ra.mag
+        b = a
+        if self.rng.random() < 0.6:
+            # a different vector of the same length (UTPM.outer needs equal lengths)
+            b = self.pick_reg(lambda q: q.sh == ra.sh)
+        mag = ra.mag * self.regs[b].mag
         if mag > MAG_CAP or (self.truth_only and 'outer' in NON_T):
             return False
-        self.emit('outer', [a, a], (ra.sh[0], ra.sh[0]), mag, t='outer' not in NON_T, p=True)
+        self.emit('outer', [a, b], (ra.sh[0], ra.sh[0]), mag, t='outer' not in NON_T, p=True)
         return True
 
     def op_reshape(self):
-        a = self.pick_reg(lambda q: q.flat and len(q.sh) >= 1 and _prod(q.sh) in (4, 6, 8, 9))
+        a = self.pick_reg(lambda q: (q.flat or 'reshape_noncontig' not in NON_T) and len(q.sh) >= 1
+                          and _prod(q.sh) in (4, 6, 8, 9))
         if a is None:
             return False
         ra = self.regs[a]
@@ -627,7 +659,11 @@ class Gen(object):
             self.emit('un', [a], sh, 1.0, f=w)
             return True
         if w in ('erf', 'expit'):
-            self.emit('un', [a], sh, 1.0, f=w, pos=(1e-9, 1.0) if w == 'expit' else None)
+            # bounded argument: the kernels overflow to inf/inf = nan for |x| in the hundreds,
+            # a floating-point range matter no claimed property is about
+            if ra.mag > 8.0:
+                a = self.emit('un', [a], sh, 1.0, f=rng.choice(['sin', 'cos']))
+            self.emit('un', [a], sh, 1.0, f=w, pos=(1e-4, 1.0) if w == 'expit' else None)
             return True
         s = self.emit('un', [a], sh, 1.0, f=rng.choice(['sin', 'cos']))
         if w == 'expsin':
@@ -653,8 +689,8 @@ class Gen(object):
         elif w == 'recip':
             self.emit('un', [p], sh, 2.0, f='reciprocal', pos=(0.4, 2.0))
         elif w == 'powr':
-            r = rng.choice([0.5, 1.5, 2.5, -0.5, -1.5])
-            self.emit('pow', [p, {'c': r}], sh, 10.0, pos=(0.1, 10.0))
+            r = rng.choice([0.5, 1.5, 2.5, -0.5, -1.5] + ([] if 'pow_negint' in NON_T else [-1, -2, -3]))
+            self.emit('pow', [p, {'ci': r} if isinstance(r, int) else {'c': r}], sh, 10.0, pos=(0.1, 10.0))
         elif w == 'divpos':
             b = self.pick_reg(lambda q: q.sh == sh or q.sh == ())
             if b is None or self.regs[b].mag * 2.0 > MAG_CAP:
